@@ -13,6 +13,8 @@ from .model import MNode, MTree, apply_filter_inplace, model_filter
 from .world import InjectedFault, World
 
 OK, REFUSE, EXCLUDED, SKIP, NOCHANGE = "OK", "REFUSE", "EXCLUDED", "SKIP", "NOCHANGE"
+REFUSE_OR_OK = "REFUSE_OR_OK"  # refusing (state unchanged) or the documented effect
+ANYRESULT = "ANYRESULT"  # outcome not specified: refuse atomically or stay well-formed
 
 UNIQUE = ("UniqueConstraintError",)
 AMBIG = ("AmbiguousMatchError",)
@@ -159,6 +161,7 @@ def plan_add(w: World, op: dict) -> Plan:
     uidgen = UidGen(op["id"])
     reasons = []  # refusal reasons
     trigger = f"add-{api}"
+    self_copy_deep = False
 
     # ---- position
     real_before = None
@@ -193,10 +196,18 @@ def plan_add(w: World, op: dict) -> Plan:
             return Plan(SKIP)
         real_src = w.real(src["tree"])
         smt = tree_of(w, sj)
-        if sj == si:
-            return Plan(EXCLUDED, why="adding a tree to itself")
+        self_copy = sj == si  # a tree added below one of its own nodes: see below
         if not sroot.children:
-            return Plan(EXCLUDED, why="adding an empty tree")
+            # nothing to add: refusing or doing nothing are both fine
+            def call_empty():
+                kw0 = {}
+                if "before" in op and before is not None and not isinstance(before, dict):
+                    kw0["before"] = before
+                return real_recv.add_child(real_src, **kw0) if api == "add_child" else \
+                    getattr(real_recv, api)(real_src, **kw0)
+
+            return Plan(NOCHANGE, why="empty source tree", call=call_empty, owner="C07",
+                        trigger="add-add/tree/empty", slots=(si,))
         if sibling_api or api in ("append_child", "prepend_child"):
             return Plan(EXCLUDED, why="tree source only via add()")
         if data_id is not None or node_id is not None:
@@ -212,6 +223,11 @@ def plan_add(w: World, op: dict) -> Plan:
             new_tops.append(copy_subtree(t, uidgen, deep=eff_deep))
         child_real = real_src
         trigger += "/tree"
+        if self_copy and (eff_deep or P.is_root()):
+            trigger += "/into-itself"
+            self_copy_deep = True
+        elif self_copy:
+            trigger += "/own-tree-shallow"
         if typed and any(t.kind != DEFAULT_KIND for t in new_tops):
             trigger += "/typed-nokind"
         owner = "C07"
@@ -231,7 +247,10 @@ def plan_add(w: World, op: dict) -> Plan:
         if data_id is not None and data_id != nm.did:
             reasons.append("data_id-conflict")
         if eff_deep and sj == si and (P is nm or P.is_descendant_of(nm)):
-            return Plan(EXCLUDED, why="deep copy of a branch into itself")
+            # copy of a branch below itself: a snapshot copy or a refusal are both
+            # acceptable, a corrupted tree is not
+            trigger += "/into-itself"
+            self_copy_deep = True
         if typed and sibling_api:
             k2 = self_m.kind  # "of same kind"
         else:
@@ -290,7 +309,7 @@ def plan_add(w: World, op: dict) -> Plan:
         return getattr(real_recv, api)(child_real, **kw)
 
     if reasons:
-        refuse = UNIQUE if reasons == ["duplicate-sibling"] else ANY
+        refuse = UNIQUE if reasons == ["duplicate-sibling"] and not self_copy_deep else ANY
         return Plan(REFUSE, why="+".join(reasons), refuse=refuse, call=call,
                     owner=owner, trigger=trigger + "/" + "+".join(reasons), slots=(si,))
 
@@ -304,7 +323,23 @@ def plan_add(w: World, op: dict) -> Plan:
             new_tops[0].nid = node_id
         return None
 
-    return Plan(OK, call=call, apply=apply, owner=owner, trigger=trigger, slots=(si,))
+    def after(result):
+        # "Returns: the new Node instance"
+        from .world import Violation
+
+        if "tree" in src:
+            if result is not None and any(result is w.real_of.get(t.uid) for t in new_tops):
+                return
+            raise Violation(owner, "return-value",
+                            "add_child(<tree>) does not return one of the new nodes "
+                            "(it returns a node of the source tree or None)", trigger)
+        if result is not w.real_of.get(new_tops[0].uid):
+            raise Violation(owner, "return-value", "add_child() does not return the new node",
+                            trigger)
+
+    contract = REFUSE_OR_OK if self_copy_deep else OK
+    return Plan(contract, call=call, apply=apply, owner=owner, trigger=trigger, slots=(si,),
+                after=after)
 
 
 # ------------------------------------------------------------------------------
@@ -448,12 +483,6 @@ def plan_move(w: World, op: dict) -> Plan:
 # ------------------------------------------------------------------------------
 # remove / remove_children / clear / del
 # ------------------------------------------------------------------------------
-def _unnest_collides(n: MNode) -> bool:
-    """Would un-nesting n's children put two equal data_ids under n's parent?"""
-    sib = [c.did for c in n.parent.children if c is not n]
-    return any(c.did in sib for c in n.children)
-
-
 @handler("remove")
 def plan_remove(w: World, op: dict) -> Plan:
     si, nm = w.mnode(op["node"])
@@ -483,20 +512,25 @@ def plan_remove(w: World, op: dict) -> Plan:
         return rn.remove(**kw)
 
     if keep:
-        with_kids = [g for g in group if g.children]
-        if len(group) > 1:
-            nested = any(a.is_descendant_of(b) for a in group for b in group if a is not b)
-            if nested:
-                return Plan(EXCLUDED, why="keep_children+with_clones with nested members")
-            # two members under one grandparent would un-nest into each other
-            return_excl = False
-            for a in with_kids:
-                for b in with_kids:
-                    if a is not b and a.parent is b.parent:
-                        return_excl = True
-            if return_excl:
-                return Plan(EXCLUDED, why="keep_children+with_clones same parent")
-        if any(_unnest_collides(g) for g in with_kids):
+        # the structure that remains when every member is gone and its children
+        # have moved up (members may be nested) must keep siblings unique
+        members = {id(g) for g in group}
+
+        def remaining(nodes):
+            for n in nodes:
+                if id(n) not in members:
+                    yield n
+                else:
+                    yield from remaining(n.children)
+
+        collide = False
+        for g in group:
+            if not g.children or id(g.parent) in members:
+                continue
+            dids = [n.did for n in remaining(g.parent.children)]
+            if len(set(dids)) != len(dids):
+                collide = True
+        if collide:
             return Plan(REFUSE, why="duplicate-sibling", refuse=UNIQUE, call=call,
                         trigger=trigger + "/duplicate-sibling", slots=(si,))
 
